@@ -106,7 +106,7 @@ var c13IdxEdges = [][4]float64{
 }
 
 // edge query targets
-var c13TargetNames = []string{"tp0", "tp1", "tp2", "te0"}
+var c13TargetNames = []string{"tp0", "tp1", "tp2", "te0", "ti0"}
 
 func c13Target(name string) s2.VerifDistanceTarget {
 	switch name {
@@ -120,6 +120,15 @@ func c13Target(name string) s2.VerifDistanceTarget {
 		// crosses the boundary of L0 only (stays clear of P0 and L1, so that the zero
 		// distance is not tied between two shapes)
 		return s2.NewMinDistanceToEdgeTarget(s2.Edge{V0: c13LL(14, 12), V1: c13LL(11, 17.5)})
+	case "ti0":
+		// another ShapeIndex as target: small loops at clearly different distances from everything indexed, so
+		// that an approximate answer (a target that still carries the maxError of an earlier threshold call,
+		// defect D49) differs from the exact one.  The target object is REUSED within a history (c13State.target).
+		ti := s2.NewShapeIndex()
+		for k := 0; k < 10; k++ {
+			ti.Add(s2.RegularLoop(c13LL(float64(24+3*k), float64(31+(k*17)%23)), s1.Angle(0.3)*s1.Degree, 12))
+		}
+		return s2.NewMinDistanceToShapeIndexTarget(ti)
 	}
 	return nil
 }
@@ -282,6 +291,7 @@ func c13CallOp(kind, target string, l int) string {
 // Executing histories (child side)
 
 type c13State struct {
+	targets map[string]s2.VerifDistanceTarget // EdgeQuery targets are reused within a history
 	loop  *s2.Loop
 	poly  *s2.Polygon
 	index *s2.ShapeIndex
@@ -369,9 +379,15 @@ func c13ResStr(r s2.EdgeQueryResult) string {
 	return fmt.Sprintf("%d/%d/%016x", r.ShapeID(), r.EdgeID(), math.Float64bits(float64(r.Distance())))
 }
 
-func c13DoCall(e *s2.EdgeQuery, f []string) string {
+func c13DoCall(e *s2.EdgeQuery, f []string, cache map[string]s2.VerifDistanceTarget) string {
 	kind, tname := f[1], f[2]
-	t := c13Target(tname)
+	t := cache[tname] // long-lived side: the target object of this history; nil map on the fresh side
+	if t == nil {
+		t = c13Target(tname)
+		if cache != nil {
+			cache[tname] = t
+		}
+	}
 	if t == nil {
 		c13Bad("bad-target-%s", tname)
 	}
@@ -498,7 +514,10 @@ func (st *c13State) exec(op string) (answer string, kind int, optsok bool) {
 		if len(f) < 4 {
 			c13Bad("call-arity")
 		}
-		a := c13DoCall(st.eq, f)
+		if st.targets == nil {
+			st.targets = map[string]s2.VerifDistanceTarget{}
+		}
+		a := c13DoCall(st.eq, f, st.targets)
 		return a, 2, st.user.holds(st.eq)
 	case "eqreset":
 		if st.eq == nil {
@@ -532,7 +551,7 @@ func (st *c13State) ref(op string) string {
 		return c13IndexAnswer(index, objs)
 	case "call":
 		index, _ := c13FreshIndex(st.names)
-		return c13DoCall(s2.NewClosestEdgeQuery(index, st.user.build()), f)
+		return c13DoCall(s2.NewClosestEdgeQuery(index, st.user.build()), f, nil)
 	case "lcontains":
 		return c13LoopContains(s2.LoopFromPoints(append([]s2.Point(nil), st.loop.Vertices()...)))
 	case "lcell":
@@ -1055,6 +1074,7 @@ func genC13(g *G) {
 	eqAlpha := []string{
 		c13CallOp("fes", "tp0", 0), c13CallOp("dist", "tp0", 0), c13CallOp("fe", "tp1", 0),
 		c13CallOp("less", "tp0", 10), c13CallOp("greater", "te0", 1), c13CallOp("consle", "tp2", 3),
+		c13CallOp("less", "ti0", 40), c13CallOp("dist", "ti0", 0), c13CallOp("fes", "ti0", 0),
 		"eqreset",
 	}
 	for _, u := range []string{
